@@ -23,6 +23,7 @@ structure Input where
   full : Listing                -- apparmor.d/groups/_full/** re-rooted at apparmor.d/ when --full ([] otherwise)
   flagged : List String         -- profiles named by a flags manifest with at least one flag
   edited : List String          -- relative paths edited in place by the fsp task when --full
+  systemd : Listing := []       -- systemd/default/** then systemd/early/** (or systemd/full/** when --full), re-rooted at systemd/, in copy order
 
 def splitPath (s : String) : Path :=
   ((Proto.splitOnChar '/' s.toList).filter (fun c => !c.isEmpty)).map String.ofList
@@ -81,7 +82,8 @@ def overwriteOne (fs : Listing) (name : String) : Listing :=
 def mark (fs : Listing) (names : List Path) (tag : String) : Listing :=
   fs.map (fun p => if names.contains p.1 then (p.1, tag) else p)
 
-/-- what `.build` holds after the prepare stage (apparmor.d and share; systemd is compared separately) -/
+/-- what `.build` holds after the prepare stage (apparmor.d, share and the systemd drop-ins).  Whatever an
+earlier run left in the build directory is not an input: the result depends on the source tree only. -/
 def spec (i : Input) : Listing :=
   let fs := i.src
   let fs := i.ignore.foldl ignoreOne fs
@@ -92,7 +94,8 @@ def spec (i : Input) : Listing :=
   let fs := mark fs (i.flagged.map (fun n => [aa, n])) "FLAGGED"
   let fs := i.overwrite.foldl overwriteOne fs
   let fs := i.full.foldl (fun acc p => setEntry acc p.1 p.2) fs
-  mark fs (i.edited.map splitPath) "EDITED"
+  let fs := mark fs (i.edited.map splitPath) "EDITED"
+  i.systemd.foldl (fun acc p => setEntry acc p.1 p.2) fs
 
 /-- base names of the source profiles are unique (C19) -/
 def uniqueBase (fs : Listing) : Bool :=
